@@ -143,3 +143,23 @@ Proof.
     + eexists. split; [right; left; reflexivity|reflexivity].
     + eexists. split; [left; reflexivity|reflexivity].
 Qed.
+
+(* a topological order of ex_src's dependency graph: hw2 <- hw1 <- s1.x; v reads nothing *)
+Definition ex_rank (s : string) : nat :=
+  if String.eqb s "hw1" then 1 else if String.eqb s "s1.x" then 2 else 0.
+
+(* /device, /devices, /peripherals witnesses *)
+Definition ex_dev (name dname : string) (hash : string) : device :=
+  {| dv_attrs := [("name", JStr name); ("display_name", JStr dname)];
+     dv_defaults := [("name", JStr "vm"); ("display_name", JStr "")];
+     dv_kinds := [("name", KName); ("display_name", KStr 64)];
+     dv_hashes := [("admin_password_hash", JStr hash); ("normal_password_hash", JStr empty_hash); ("viewonly_password_hash", JStr empty_hash)];
+     dv_readonly := [("version", JStr "0.0.0"); ("uptime", JNum 4); ("definitions", JObj [])] |}.
+
+Definition ex_slave (name host : string) (poll : Z) : entry :=
+  slave_json [("name", JStr name); ("scheme", JStr "http"); ("host", JStr host); ("port", JNum 320); ("path", JStr "/");
+              ("admin_password_hash", JStr empty_hash); ("poll_interval", JNum poll); ("listen_enabled", JBool false);
+              ("last_sync", JNum (-4)); ("provisioning", JList []); ("attrs", JObj [("name", JStr name)])].
+
+Definition ex_periph (name : string) : entry :=
+  [("driver", JStr "mock.Driver"); ("dummy_param", JStr "x"); ("name", JStr name); ("id", JStr name); ("static", JBool false)].
